@@ -33,12 +33,23 @@ TRUSTED = [
     "of map-range sites, set.Set.ToSlice uses, time.Now / math/rand / go-statement sites",
     "cosmos-sdk, CometBFT ABCI types, IAVL, geth interpreter: executed, not modelled",
 ]
-# GasUsed of txs rejected BEFORE the ante handler is compared on its own channel.  On the unchanged tree a replica that was
-# restarted between two blocks reports +27843 gas for such txs in its first block (x/capability re-initialises its memory
-# store in BeginBlock on the block context's gas meter; app.go does not call InitMemStore at load) - reported to the
-# coordinator as a genuine finding.  False = the channel is recorded in the evidence ("finding:…" histogram keys) but does
-# not fail the check; set True once the finding is fixed or listed in known_findings.json.
+# GasUsed of txs rejected BEFORE the ante handler is compared on its own channel (baseapp reports the block context's gas meter
+# for them, so anything BeginBlock does differently on one node leaks into it).
+#  * fixed by /repo 1a0e058: x/capability re-initialised its mem store in the first BeginBlock after a restart (+27843 gas);
+#  * still open (reported to the coordinator): cosmos-sdk x/upgrade keeps a process-local `downgradeVerified` flag and spends
+#    ONE extra store-iterator step (IterNextCostFlat = 30 gas) in the first BeginBlock of every process lifetime, so a restarted
+#    replica reports exactly +30 gas for such txs in its first block.
+# STRICT_PREANTE_GAS = True: every difference on that channel is a violation.  False: a difference of exactly one of the
+# KNOWN_PREANTE_DELTAS is recorded in the evidence ("finding:…" histogram key) without failing; ANY OTHER difference on the channel
+# (e.g. the capability regression) is still a violation.
 STRICT_PREANTE_GAS = False
+KNOWN_PREANTE_DELTAS = {30}
+
+
+def _preante_strict(obs):
+    return STRICT_PREANTE_GAS or int(obs.get("preante_max_delta", 0)) not in KNOWN_PREANTE_DELTAS
+
+
 HARNESS_TIMEOUT = {"quick": 420, "thorough": 7200}
 
 
@@ -63,7 +74,7 @@ def to_coq_case(rec):
     t = inp["t"]
     if t == "diff":
         return "(CDiff [%s] [%s] %s)" % ("; ".join(_nl(r) for r in obs["replicas"]),
-                                         "; ".join(_nl(r) for r in obs.get("preante_gas", [])), _b(STRICT_PREANTE_GAS))
+                                         "; ".join(_nl(r) for r in obs.get("preante_gas", [])), _b(_preante_strict(obs)))
     if t == "sudo":
         steps = []
         for st, ob in zip(inp["steps"], obs["steps"]):
@@ -119,7 +130,7 @@ def classify(rec):
         ks.append("replicas_agree" if all(r == obs["replicas"][0] for r in obs["replicas"]) else "replicas_differ")
         pa = obs.get("preante_gas") or [[]]
         if not all(r == pa[0] for r in pa):
-            ks.append("finding:gasused_of_tx_rejected_before_ante_differs_on_restarted_replica")
+            ks.append("finding:gasused_of_tx_rejected_before_ante_differs_on_restarted_replica/delta=%d" % obs.get("preante_max_delta", 0))
         ks.append("perturbation:queries_answered_by_replica1=%d" % (obs.get("queries") or [0, 0])[1])
         ks.append("perturbation:restarts_of_replica2=%d" % obs.get("restarts", 0))
         ks.append("perturbation:checktx_on_replica2=%d" % obs.get("checktxs", 0))
@@ -149,7 +160,8 @@ def signature(rec):
     if inp["t"] == "diff":
         main_agree = all(r == obs["replicas"][0] for r in obs["replicas"])
         if main_agree:
-            return {"kind": "replicas-differ", "cause": "gasused-of-tx-rejected-before-ante-after-restart"}
+            return {"kind": "replicas-differ", "cause": "gasused-of-tx-rejected-before-ante-after-restart",
+                    "delta": int(obs.get("preante_max_delta", 0))}
         return {"kind": "replicas-differ", "where": sorted(d for d in (obs.get("differs") or []) if not d.startswith("tx#"))}
     return {"kind": "submodel-" + inp["t"]}
 
